@@ -33,6 +33,20 @@ static std::vector<LogEntry>* g_log;
 static long g_stamp;
 static int g_waiting[VS_MAXT][3];  // [t] = {active, delta, slack}, indexed by scheduler tid
 
+// explicit-state mode: abstract shared state = semaphore value, the log of completed calls (the oracle is evaluated on
+// it, so it belongs to the state) and the waiting table; thread-local state = call site + script position tag
+__attribute__((no_sanitize("thread"))) static uint64_t sem_state() {
+    uint64_t h = 5;
+    auto mix = [&h](uint64_t v) { h = (h ^ (v + 0x9E3779B97F4A7C15ull + (h << 6) + (h >> 2))) * 0xff51afd7ed558ccdull; };
+    if (g_sem) mix(g_sem->value());
+    if (g_log)
+        for (auto& e : *g_log) mix((uint64_t)e.tid * 1000003 + (uint64_t)e.op.kind * 10007 + (uint64_t)e.op.a * 101 + (uint64_t)e.op.b * 11 + (uint64_t)e.ret * 7 + (uint64_t)e.inv * 131 + (uint64_t)e.resp * 17);
+    for (int t = 0; t < VS_MAXT; ++t)
+        if (g_waiting[t][0]) mix((uint64_t)t * 97 + g_waiting[t][1] * 5 + g_waiting[t][2]);
+    mix((uint64_t)g_stamp);
+    return h;
+}
+
 static int sem_quiescent_ok() {
     // the threads came to rest: no blocked waiter may be covered by the current value
     size_t v = g_sem->value();
@@ -116,7 +130,9 @@ static void sem_body(size_t init, const std::vector<std::vector<Op>>& scripts) {
         const std::vector<Op>* sc = &scripts[i];
         th.emplace_back([sc, &sem, &log]() {
             int me = vs_self();
+            int step = 0;
             for (const Op& op : *sc) {
+                vs_set_tag(++step);
                 long r = 0;
                 long inv = ++g_stamp;
                 switch (op.kind) {
@@ -135,6 +151,8 @@ static void sem_body(size_t init, const std::vector<std::vector<Op>>& scripts) {
     }
     for (auto& t : th) t.join();
     sem_check_log(init, log);
+    g_sem = nullptr;
+    g_log = nullptr;
     std::string o;
     for (auto& e : log) o += vh::fmt("T%d%s=%ld ", e.tid, e.op.str().c_str(), e.ret);
     vs_observe(o.c_str());
@@ -146,9 +164,33 @@ static void sem_body(size_t init, const std::vector<std::vector<Op>>& scripts) {
 static int g_n, g_gens;
 static int g_entered[8], g_left[8], g_lambda[8];
 
+static uint64_t (*g_bar_fields)();
+__attribute__((no_sanitize("thread"))) static uint64_t bar_state() {
+    uint64_t h = 9;
+    auto mix = [&h](uint64_t v) { h = (h ^ (v + 0x9E3779B97F4A7C15ull + (h << 6) + (h >> 2))) * 0xff51afd7ed558ccdull; };
+    for (int g = 0; g < 8; ++g) mix((uint64_t)g_entered[g] * 64 + g_left[g] * 8 + g_lambda[g]);
+    if (g_bar_fields) mix(g_bar_fields());
+    return h;
+}
+static void* g_bar;
+template <class Barrier>
+__attribute__((no_sanitize("thread"))) static uint64_t bar_fields();
+template <>
+uint64_t bar_fields<tlx::ThreadBarrierMutex>() {
+    auto* b = static_cast<tlx::ThreadBarrierMutex*>(g_bar);
+    return b ? b->counts_[0] * 1000 + b->counts_[1] * 10 + b->step_ : 0;
+}
+template <>
+uint64_t bar_fields<tlx::ThreadBarrierSpin>() {
+    auto* b = static_cast<tlx::ThreadBarrierSpin*>(g_bar);
+    return b ? b->waiting_.vs_peek() * 1000 + b->step_.vs_peek() : 0;
+}
+
 template <class Barrier, bool Yield>
 static void barrier_body(int n, int gens) {
     Barrier bar(n);
+    g_bar = &bar;
+    g_bar_fields = &bar_fields<Barrier>;
     g_n = n;
     g_gens = gens;
     memset(g_entered, 0, sizeof g_entered);
@@ -158,6 +200,7 @@ static void barrier_body(int n, int gens) {
     for (int i = 0; i < n; ++i) {
         th.emplace_back([&bar]() {
             for (int g = 0; g < g_gens; ++g) {
+                vs_set_tag(1 + g);
                 g_entered[g]++;
                 auto action = [g]() {
                     if (g_entered[g] != g_n)
@@ -180,6 +223,7 @@ static void barrier_body(int n, int gens) {
     for (int g = 0; g < gens; ++g)
         if (g_left[g] != n || g_lambda[g] != 1) vs_fail("final-count", "generation counters wrong at the end");
     vs_observe(vh::fmt("gens=%d step=%zu", gens, (size_t)bar.step()).c_str());
+    g_bar = nullptr;
 }
 
 // ---------------------------------------------------------------------------------------------
@@ -258,6 +302,16 @@ int main(int argc, char** argv) {
             sc.whole = true;
             sc.spurious_pass = thorough && ss.size() == 2;
             scs.push_back(sc);
+            // explicit-state (unbounded) exploration of the same scenario
+            if (ss.size() == 2 || calls <= 3) {
+                vx::Scenario sx = sc;
+                sx.name = "X:" + name;
+                sx.stateful = true;
+                sx.state_cb = &sem_state;
+                sx.spurious_pass = false;
+                sx.thorough_only = !(ss.size() == 2 && calls <= 3);
+                scs.push_back(sx);
+            }
         }
     }
     // --- barriers
@@ -286,6 +340,16 @@ int main(int argc, char** argv) {
                 sc.spurious_pass = std::string(v.nm) == "mutex.wait" && n >= 2 && n <= 3 && g <= 2;
                 sc.spurious_kmax = thorough ? 4 : 2;
                 scs.push_back(sc);
+                if (n <= 3 && g <= 2) {
+                    vx::Scenario sx = sc;
+                    sx.name = "X:" + sc.name;
+                    sx.stateful = true;
+                    sx.state_cb = &bar_state;
+                    sx.spurious_pass = false;
+                    sx.whole = true;
+                    sx.thorough_only = !(n == 2 || (n == 3 && g == 1));
+                    scs.push_back(sx);
+                }
             }
         }
     return vx::run(argc, argv, scs);
